@@ -2,6 +2,11 @@
 (* Bounded instance of Marmot.tla for exhaustive checking with TLC.         *)
 EXTENDS Marmot
 
+MaxDepth == 11    \* (overridden per cfg: MaxDepth <- D10 ...)
+D9 == 9
+D10 == 10
+D12 == 12
+D13 == 13
 CONSTANTS MaxEvents,   \* bound on published events
           MaxCommits,  \* bound on commits among them
           TsSet,       \* wrapper timestamps to choose from
@@ -115,6 +120,27 @@ FullNext ==
           \/ \E c \in Sql : RestartT(c, 0, 1) /\ UNCHANGED held        \* start-up with every stored snapshot past its TTL
           \/ Quiescent /\ ~hist.q /\ Quiesce /\ UNCHANGED held
 
+\* ---- invitation / membership instance, small enough to be explored exhaustively ----
+\* one admin adds / removes members, every client may process (under two wrapper ids), accept or decline every welcome,
+\* delete the key package behind it, merge, hand events around and restart
+MemberNext ==
+    \/ MCNext
+    \/ /\ Created(G) /\ NEv < MaxEvents /\ NCommits < MaxCommits
+       /\ \/ \E c \in Clients, t \in Clients, rank \in Ranks :
+                /\ t # c /\ t \in Mem(c)
+                /\ DoCommit(c, G, "remove", {U(t)}, NMF(1, rank), <<>>) /\ Track
+          \/ \E c \in Clients, t \in Clients, rank \in Ranks :
+                /\ t \notin Mem(c)
+                /\ DoCommit(c, G, "add", {t}, NMF(1, rank), [u \in {t} |-> "w" \o ToString(NEv + 1)]) /\ Track
+    \/ /\ Created(G)
+       /\ \/ \E c \in Clients, w \in DOMAIN wl, x \in {"x1", "x2"} : ProcessWelcome(c, w, w \o x) /\ UNCHANGED held
+          \/ \E c \in Clients, w \in DOMAIN wl : AcceptWelcome(c, w) /\ Track
+          \/ \E c \in Clients, w \in DOMAIN wl : DeclineWelcome(c, w) /\ UNCHANGED held
+          \/ \E c \in Clients, w \in DOMAIN wl : WelcOf(c, w) # "none" /\ DropKeyPackage(c, w) /\ UNCHANGED held
+          \/ \E c \in Clients, w \in DOMAIN wl : WelcomeCallFails(c, w) /\ UNCHANGED held
+          \/ \E c \in Sql : Restart(c) /\ UNCHANGED held
+MemberSpec == MCInit /\ [][MemberNext]_mcvars
+
 FullSpec == MCInit /\ [][FullNext]_mcvars
 
 MCSpec == MCInit /\ [][MCNext]_mcvars
@@ -122,6 +148,8 @@ MCSpec == MCInit /\ [][MCNext]_mcvars
 \* hide pure observation variables from the state identity
 MCView == <<ginfo, ev, cl, proc, msgs, snapq, hyd, withdrawn, wl, welc, pwelc, held, hist.mergedNoSnap>>
 
+\* exhaustive up to a depth: every behaviour of at most MaxDepth steps (breadth-first search)
+DepthBound == TLCGet("level") <= MaxDepth
 MC_C01 == Quiescent => C01_ExcusedQuiet
 MC_C01_Plain == Quiescent => C01_Plain
 MC_C03 == C03_OnlyMembers
